@@ -114,6 +114,7 @@ def accepts(case, impl, model):
 def _ua_oracle(case, impl):
     if "PANIC" in impl:
         return ["panic: " + impl[-300:]]
+    impl = impl.replace("|branch=invite1|", "|branch=z9hG4bKinvite1|")      # a legacy caller's INVITE branch (setup lbranch)
     tags = []
     for m in re.finditer(r"W:SIP/2\.0_(\d+)_[^|]*\|cseq=\d+_INVITE\|branch=z9hG4bKinvite1\|totag=([^|]*)\|", impl):
         if int(m.group(1)) > 100:
